@@ -64,9 +64,18 @@ func scenarioClient(sp Spec, oc *Outcome) {
 
 	var fx *serverFixture
 	var mute *muteServer
+	var script *scriptServer
 	var stall atomic.Bool
 	addr := ""
 	switch sp.ServerKind {
+	case "script":
+		sc, err := startScript(sp.BurstStep, sp.Burst, sp.BurstFirst)
+		if err != nil {
+			oc.SetupErr = err.Error()
+			return
+		}
+		script = sc
+		addr = sc.ln.Addr().String()
 	case "mute":
 		m, err := startMute()
 		if err != nil {
@@ -154,6 +163,17 @@ func scenarioClient(sp Spec, oc *Outcome) {
 	}
 	timedClose(oc, recC, co, baseG, "client", p.c.Close)
 	close(noiseStop)
+	if !oc.Hang {
+		// Wait() must return as well once Close() has
+		wr := make(chan struct{})
+		go func() { p.c.Wait(); close(wr) }()
+		select {
+		case <-wr:
+		case <-time.After(5 * time.Second):
+			oc.Hang = true
+			oc.HangDump = "Client.Wait() did not return after Close() returned"
+		}
+	}
 	if oc.Hang {
 		oc.Events, oc.Counts, oc.Dropped = recC.Snapshot()
 		return
@@ -168,6 +188,9 @@ func scenarioClient(sp Spec, oc *Outcome) {
 	}
 	if mute != nil {
 		mute.close()
+	}
+	if script != nil {
+		script.close()
 	}
 	close(stopAll)
 	wgSrc.Wait()
